@@ -362,7 +362,9 @@ theorem dot_map_add {β : Type} (w : List α) (l : List β) (g h : β → α) :
 theorem sum_dot_map {β ι : Type} (L : List ι) (w : List α) (l : List β) (g : ι → β → α) :
     (L.map fun j => dot w (l.map (g j))).sum = dot w (l.map fun x => (L.map fun j => g j x).sum) := by
   induction L with
-  | nil => simp [dot_map_zero]
+  | nil =>
+    simp only [List.map_nil, List.sum_nil]
+    exact (dot_map_zero w l).symm
   | cons j L ih => simp only [List.map_cons, List.sum_cons, ih, dot_map_add]
 
 theorem dot_flatMap {β γ : Type} (wa : List α) (pa : List β) (wb : List α) (pb : List γ) (F : β → γ → α)
@@ -424,14 +426,16 @@ theorem loopIntegral_mul (w : LeafPt → α) (a b : SampleExpr) (f : Pt → α) 
     loopIntegral w (.mul a b) f = loopIntegral w a fun pa => loopIntegral w b fun pb => f (pa ++ pb) := by
   unfold loopIntegral
   rw [nelems_mul]
-  have key : ∀ e, dot (wts w (.mul a b) e) ((pts (.mul a b) e).map f) =
-      (fun e1 e2 => dot (wts w a e1) ((pts a e1).map fun P => dot (wts w b e2) ((pts b e2).map fun pb => f (P ++ pb))))
-        (e / nelems b) (e % nelems b) := by
+  let G : Nat → Nat → α := fun e1 e2 =>
+    dot (wts w a e1) ((pts a e1).map fun P => dot (wts w b e2) ((pts b e2).map fun pb => f (P ++ pb)))
+  have key : ∀ e, dot (wts w (.mul a b) e) ((pts (.mul a b) e).map f) = G (e / nelems b) (e % nelems b) := by
     intro e
     simp only [wts, pts, List.map_flatMap, List.map_map]
     exact dot_flatMap _ _ _ _ (fun P pb => f (P ++ pb)) (by rw [wts_length, pts_length])
-  simp only [key]
-  rw [sum_range_mul]
+  have h1 : ((List.range (nelems a * nelems b)).map fun e => dot (wts w (.mul a b) e) ((pts (.mul a b) e).map f)) =
+      (List.range (nelems a * nelems b)).map fun e => G (e / nelems b) (e % nelems b) :=
+    List.map_congr_left fun e _ => key e
+  rw [h1, sum_range_mul (nelems a) (nelems b) G]
   congr 1
   apply List.map_congr_left
   intro e1 _
@@ -467,10 +471,10 @@ theorem loop_eq_flat (w : LeafPt → α) (s : SampleExpr) (hs : Valid s) (f : Pt
     loopIntegral w s f = flatWeightedSum w s f := by
   have hp := part_of_valid hs
   unfold flatWeightedSum loopIntegral
-  have hperm := (flat_perm hp).map (fun q => weightAt w s q * bindAt s f q)
-  rw [← hperm.sum_eq]
-  change _ = (((List.range (nelems s)).flatMap (getindex s)).map _).sum
-  rw [sum_map_flatMap]
+  have hperm : (((List.range (nelems s)).flatMap (getindex s)).map fun q => weightAt w s q * bindAt s f q).Perm
+      ((List.range (npoints s)).map fun q => weightAt w s q * bindAt s f q) :=
+    (flat_perm hp).map (fun q => weightAt w s q * bindAt s f q)
+  rw [← hperm.sum_eq, sum_map_flatMap]
   congr 1
   apply List.map_congr_left
   intro i hi
@@ -498,8 +502,9 @@ theorem loop_eq_flat (w : LeafPt → α) (s : SampleExpr) (hs : Valid s) (f : Pt
     simp only [Option.map_some]
     rw [bindAt_getindex s hs f i k q _ hq hP]
     unfold weightAt
-    rw [scatterAt_hit _ _ _ hp.nodup hp.disj i k q _ hi hq hw]
-    rfl
+    have hsc : scatterAt (nelems s) (getindex s) (wts w s) q = (wts w s i)[k]'(by rw [wts_length]; exact hk) :=
+      scatterAt_hit (nelems s) (getindex s) (wts w s) hp.nodup hp.disj i k q _ hi hq hw
+    rw [hsc]
 end
 
 end NutilsVerif.C09
